@@ -12,7 +12,7 @@ import importlib
 import z3
 
 from . import sv
-from .sv import Sym, MapVal, ObjVal, ListVal, SeqBox, ExcVal, Opaque, TInt, TBool, TStr, TOpt, TSeq, TTup, TEnum, TUn, TRec, Ty
+from .sv import Sym, MapVal, ObjVal, ListVal, SeqBox, ExcVal, Opaque, TInt, TBool, TStr, TOpt, TSeq, TTup, TEnum, TUn, TRec, Ty, TUnion
 from .engine import (
     Engine,
     Model,
@@ -103,6 +103,17 @@ class FnSpec:
         return []
 
     # ---- verified view ----------------------------------------------------------
+    def finding_classes(self, ctx):
+        """{obligation short name: {class name: z3 Bool}} -- witness classes of known findings; the residual
+        obligation (clause with the class excluded by hypothesis) must still be proved"""
+        return {}
+
+    def finding_classes_for(self, eng, name):
+        ctx = getattr(self, "ctx", None)
+        if ctx is None:
+            return None
+        return self.finding_classes(ctx).get(name)
+
     def make_globals(self, eng):
         """per-path mutable global state (module variables the function reads or writes)"""
         return {}
@@ -327,8 +338,15 @@ class FnSpec:
             return ExcVal(f, code=code, origin=getattr(node, "lineno", None))
         if getattr(f, "__supertype__", None) is not None:  # typing.NewType
             return args[0]
+        if any(f == g for g in self.concrete_calls()):
+            if all(not _symbolic(a) and not isinstance(a, (ObjVal, Opaque)) for a in list(args) + list(kwargs.values())):
+                return _wrap_concrete(f(*args, **kwargs))
         name = getattr(f, "__qualname__", repr(f))
         raise OutOfSubset("call to %s has no model/contract (%s:%s)" % (name, self.file, getattr(node, "lineno", "?")))
+
+    def concrete_calls(self):
+        """real callables that may be invoked natively when all arguments are concrete (pure, listed as trusted)"""
+        return []
 
     # ---- loops ----------------------------------------------------------------------------
     def loop_ordinal(self, eng, s):
@@ -781,11 +799,12 @@ class FnSpec:
                     return o[k]
                 eng.oblige("enum_name", False, kind="safety:KeyError", node=node)
                 raise _PathEnd()
-            if isinstance(k, Sym) and k.ty == TStr:
-                eng.oblige("enum_name", z3.Or(*[k.term == z3.StringVal(n) for n in names]), kind="safety:KeyError", node=node)
+            if isinstance(k, Sym) and (k.ty == TStr or getattr(k.ty, "is_str_like", False)):
+                lits = [k.ty.lift(n).term for n in names]
+                eng.oblige("enum_name", z3.Or(*[k.term == l for l in lits]), kind="safety:KeyError", node=node)
                 t = z3.IntVal(len(names) - 1)
                 for i in reversed(range(len(names) - 1)):
-                    t = z3.If(k.term == z3.StringVal(names[i]), z3.IntVal(i), t)
+                    t = z3.If(k.term == lits[i], z3.IntVal(i), t)
                 return Sym(t, TEnum(o))
         return NotImplemented
 
@@ -876,6 +895,12 @@ class FnSpec:
 
 
 NESTED_CONTRACTS = {}
+
+
+def _wrap_concrete(v):
+    if isinstance(v, list):
+        return ListVal([_wrap_concrete(x) for x in v])
+    return v
 
 
 class EmptyDict:
@@ -972,6 +997,9 @@ def iter_protocol(eng, it):
     """(length term, item(k) -> value) for a symbolic iterable, or (None, None)."""
     if isinstance(it, SeqBox):
         it = it.sym()
+    if isinstance(it, Sym) and isinstance(it.ty, TOpt) and isinstance(it.ty.inner, TSeq):
+        eng.oblige("iterate_over_None", z3.Not(it.ty.is_none(it.term)), kind="safety:TypeError")
+        it = Sym(it.ty.val(it.term), it.ty.inner)
     if isinstance(it, Sym) and isinstance(it.ty, TSeq):
         return z3.Length(it.term), (lambda k, it=it: Sym(it.term[k], it.ty.elt))
     if isinstance(it, LazyIter):
